@@ -190,9 +190,15 @@ impl FinalityTracker {
                 FinalizationEvent::default()
             }
             // slot is already decided: keep that status, a late notarization adds nothing
-            FinalizationStatus::Finalized(ref hash)
-            | FinalizationStatus::ImplicitlyFinalized(ref hash) => {
+            FinalizationStatus::Finalized(ref hash) => {
                 assert_eq!(hash, block_hash, "consensus safety violation");
+                self.status.insert(*slot, status);
+                FinalizationEvent::default()
+            }
+            // NOTE: The notarized block may differ from the implicitly finalized one.
+            // A slot can hold a notarized block and a notarized-fallback sibling;
+            // if the chain continued from the sibling, the notarized block is orphaned.
+            FinalizationStatus::ImplicitlyFinalized(_) => {
                 self.status.insert(*slot, status);
                 FinalizationEvent::default()
             }
@@ -341,10 +347,10 @@ impl FinalityTracker {
                     self.status.insert(slot, status);
                     return;
                 }
-                FinalizationStatus::Notarized(hash) => {
-                    assert_eq!(hash, &block_hash, "consensus safety violation");
-                }
-                FinalizationStatus::FinalPendingNotar => {}
+                // NOTE: A different notarized block in this slot is not a safety violation.
+                // Notarization is not finality: a notarized-fallback sibling may be the one
+                // the chain continued from, which orphans the notarized block.
+                FinalizationStatus::Notarized(_) | FinalizationStatus::FinalPendingNotar => {}
                 FinalizationStatus::ImplicitlySkipped => {
                     panic!("consensus safety violation")
                 }
